@@ -12,8 +12,8 @@ RULE = (
     "fields must be bit-identical.  Non-trivial transition = the DataFrame state changed."
 )
 BOUNDS = {
-    "quick": "14 operation instances, every history of depth <= 4 from two initial lists (default index; permuted and gapped index), de-duplicated on the complete state (list table + the caller's persistent dimension tables)",
-    "thorough": "14 operation instances, every history of depth <= 6 from the two initial lists",
+    "quick": "15 operation instances, every history of depth <= 4 from two initial lists (default index; permuted and gapped index), de-duplicated on the complete state (list table + the caller's persistent dimension tables)",
+    "thorough": "15 operation instances, every history of depth <= 6 from the two initial lists",
 }
 ASSUMPTIONS = [
     "positions compared with absolute tolerance 1e-8, rotation matrices with 1e-9 (analytic error of as_euler/from_euler round trips is ~1e-13 per step)",
@@ -48,7 +48,7 @@ OPS = [
     ("scale", 2.0), ("scale", 0.5),
     ("shift", (1.0, 0.0, 0.0)), ("shift", (0.0, -2.5, 1.0)),
     ("rotate", "Rz90"), ("rotate", "generic"),
-    ("flip", "none"), ("flip", "single"), ("flip", "single-array"), ("flip", "table"), ("flip", "single-df"), ("flip", "table-df"),
+    ("flip", "none"), ("flip", "single"), ("flip", "single-array"), ("flip", "table"), ("flip", "single-df"), ("flip", "table-df"), ("flip", "table-unsorted"),
     ("canonical",),
 ]
 DIM_SINGLE = [40.0, 50.0, 60.0]
@@ -135,7 +135,9 @@ class Spec(BFSSpec):
                 obs.lib(site, m.flip_handedness, st["dims"]["single-df"])
                 p[:, 2] = DIM_SINGLE[2] + 1 - p[:, 2]
             else:
-                obs.lib(site, m.flip_handedness, DIM_TABLE.copy() if op[1] == "table" else st["dims"]["table-df"])
+                # "table-unsorted": the same per-tomogram table with its rows not in ascending tomo_id order
+                arg = {"table": DIM_TABLE.copy(), "table-unsorted": DIM_TABLE[::-1].copy()}.get(op[1])
+                obs.lib(site, m.flip_handedness, arg if arg is not None else st["dims"]["table-df"])
                 for t, _, _, dz in DIM_TABLE:
                     sel = tomo == t
                     p[sel, 2] = dz + 1 - p[sel, 2]
